@@ -75,7 +75,7 @@ def run(ctx, replay=None):
         if files:
             jobs.append(("corpus", ["run"] + files, None))
         parts = 4 if quick else 16
-        n = 1600 if quick else 48000
+        n = 4000 if quick else 48000
         for i in range(parts):
             jobs.append(("gen%d" % i, ["gen", n // parts], ctx.seed * 1000 + i))
     total, nontrivial, hashes, samples = 0, 0, set(), []
